@@ -282,16 +282,25 @@ def _is_ghost(l):
 
 
 def _apply_ret(out, i, name):
-    # find `->` in the following non-ghost code lines before the body `{` line
+    # find `->` at bracket depth 0 (depth tracked across the signature's lines) before the body `{` line
+    depth = 0
     k = i
     while k < len(out):
         if not _is_ghost(out[k]):
             line = out[k]
             if line.strip() == "{":
                 raise GenError("//!ret: fn has no return type")
-            pos = _top_level_arrow(line)
+            pos = None
+            for t in rl.lex(line):
+                if t.kind == "punct":
+                    if t.text in ("(", "[", "<"):
+                        depth += 1
+                    elif t.text in (")", "]", ">"):
+                        depth -= 1
+                    elif t.text == "->" and depth == 0:
+                        pos = t.start
+                        break
             if pos is not None:
-                # type extends to end of line, or to ` where`
                 head, ty = line[:pos], line[pos + 2:]
                 w = re.search(r"\swhere\b", ty)
                 tail = ""
